@@ -7,7 +7,7 @@
     k >= 1, max_shift_steps >= 1 and unit-step slices ([op_ok]); validity of
     events holds for every history without that restriction. *)
 From Coq Require Import ZArith List Bool.
-From NS Require Gen.TrS Proofs.TrEquivS.
+From NS Require Gen.TrS Proofs.TrEquivS Gen.Tr Proofs.TrEquiv17.
 From NS Require Import Gen.G17 Model.Events Model.EventsPoly
                        Proofs.Events Proofs.EventsClasses Proofs.EventsPoly.
 Import ListNotations.
@@ -394,3 +394,8 @@ Theorem C17_source_set_length : forall (s : st Z) (n : Z) (from_left : bool),
         start (base_set_length Z s n from_left)).
 Proof. exact NS.Proofs.TrEquivS.trs_set_length_eq. Qed.
 Print Assumptions C17_source_set_length.
+
+Theorem C17_source_performance_event_validator : forall t v a b,
+  NS.Gen.Tr.tr_performance_event_validate t v a b = if Perf.ev_valid (t, v) then Some tt else None.
+Proof. exact NS.Proofs.TrEquiv17.tr_performance_event_validate_eq. Qed.
+Print Assumptions C17_source_performance_event_validator.
